@@ -386,6 +386,9 @@ def oracle_c10(obs: Obs):
             if cfg.fault_exc == 'exit':
                 if not isinstance(cause, SystemExit) or str(cause) != f'exit:{first_fail[1]}':
                     out.append(('wrong-cause', f'LabError cause is {cause!r}, expected SystemExit(exit:{first_fail[1]})'))
+            elif cfg.fault_exc == 'mlflow-absent':
+                if not isinstance(cause, LabError) or 'mlflow' not in str(cause):
+                    out.append(('wrong-cause', f'LabError cause is {cause!r}, expected the LabError about mlflow not being importable'))
             elif cfg.fault_exc == 'filter':
                 if not isinstance(cause, KeyError) or f'filter:{first_fail[1]}' not in str(cause):
                     out.append(('wrong-cause', f'LabError cause is {cause!r}, expected KeyError(filter:{first_fail[1]})'))
